@@ -103,7 +103,7 @@ class C09(Check):
 
     def strata(self, tier):
         return [('S-alldelayed', 4), ('S-mixed', 3), ('S-heun', 1), ('S-conn-single', 2), ('S-conn-multi', 1),
-                ('S-step', 2), ('S-hub', 1), ('S-matrix', 1), ('S-fortran', 0.25), ('S-big', 1), ('S-long', 0.5)]      # a few f2py builds per quick run
+                ('S-step', 2), ('S-hub', 1), ('S-matrix', 1), ('S-fortran', 0.25), ('S-big', 1), ('S-long', 0.5), ('S-conn-big', 0.25)]      # a few f2py builds per quick run
 
     def generate(self, rng, stratum, tier):
         dt = rng.choice([1e-3, 0.01, 0.05])
@@ -117,6 +117,21 @@ class C09(Check):
                # must not share ring buffers, delay tables or step counts)
                'prelude': ({'dt_factor': rng.choice([0.5, 2.0, 4.0]), 'interleave': [rng.random() < 0.5 for _ in range(60)]}
                            if rng.random() < 0.35 else None)}
+        if stratum == 'S-conn-big':
+            # sizes toy populations never reach: a source population of 450-560 units with a ring-buffer delay of ~600 steps
+            # (more than 2^18 buffered values) onto a small target population
+            ns, nt_ = rng.randint(450, 560), rng.randint(1, 3)
+            vals = list(range(-1500, 1501))
+            rng.shuffle(vals)
+            pops = {'pa': {'n': ns, 'a': [rng.randint(4, 48) / 16 for _ in range(ns)], 'x0': [vals.pop() / 1024 for _ in range(ns)]},
+                    'pb': {'n': nt_, 'a': [rng.randint(4, 48) / 16 for _ in range(nt_)], 'x0': [vals.pop() / 1024 for _ in range(nt_)]}}
+            W = [[(rng.randint(-32, 32) / 512) if rng.random() < 0.5 else 0.0 for _ in range(ns)] for _ in range(nt_)]
+            W[0][0] = 0.0625
+            d = rng.randint(560, 640)
+            cfg.update({'vectorize': True, 'prelude': None, 'mode': 'run', 'solver': 'euler', 'm': 1, 'steps': d + rng.randint(30, 80),
+                        'sparseness': None})
+            return {'spec': {'kind': 'pop', 'pops': pops, 'conns': [{'s': 'pa', 't': 'pb', 'W': W, 'dsteps': d, 'eps': rng.uniform(-0.4, 0.4)}]},
+                    'cfg': cfg}
         if stratum.startswith('S-conn'):
             cfg['vectorize'] = True
             if cfg['prelude'] and rng.random() < 0.5:
